@@ -1795,6 +1795,214 @@ def _stream_fromstat(ctx):
             ctx.disagree("fromstat", c, o, r)
 
 
+# ---- timestamps next to a second boundary: st_*_ns (int) vs st_* (float) disagree about the whole second
+
+NS = 10 ** 9
+NS_FRACS = [0, 1, 2, 119, 120, 500_000_000, 999_999_000, 999_999_762, 999_999_880, 999_999_881, 999_999_900,
+            999_999_950, 999_999_998, 999_999_999]
+BOUNDARY_SECS = [0, 1, 2 ** 31 - 1, 2 ** 31, 2 ** 32 - 1, 2 ** 32, 1_789_999_999, 1_790_000_000, 1_790_123_456,
+                 -1, -2, -5, -86400, -(2 ** 31)]
+
+
+def boundary_ns_values(rng, n_random: int):
+    """nanosecond counters next to a whole second (where the double for the same instant rounds up), at small,
+    current (~1.79e9 s: float spacing ~238 ns), 2^31/2^32 and pre-1970 seconds."""
+    vals = [s_ * NS + f_ for s_ in BOUNDARY_SECS for f_ in NS_FRACS]
+    for _ in range(n_random):
+        s_ = rng.choice([rng.randrange(1_500_000_000, 2_100_000_000), rng.randrange(0, 2 ** 33), -rng.randrange(1, 2 ** 31)])
+        vals.append(s_ * NS + rng.choice([NS - rng.randint(1, 300), rng.randint(0, 300), rng.randrange(NS)]))
+    return vals
+
+
+def _cpython_float_time(ns: int) -> float:
+    """st_mtime as CPython builds it from a timespec: sec + 1e-9 * nsec in double arithmetic."""
+    return float(ns // NS) + 1e-9 * (ns % NS)
+
+
+def check_stat_time_case(ctx, stream: str, c: dict, st=None):
+    """Direct oracle on one stat result: the entry index_entry_from_stat records has
+    (sec, nsec) == (st_*_ns // 10^9, st_*_ns % 10^9) when the stat result has the *_ns fields (else the float it was
+    given), and write -> read returns that instant with the seconds modulo 2^32.
+    c: {"kind": "stat", "mtime_ns", "ctime_ns", "with_ns": bool}.  -> what the real code recorded (for the model)."""
+    from dulwich.index import index_entry_from_stat, write_index_dict, read_index_dict
+    if st is None:
+        st = _St()
+        st.st_mode, st.st_ino, st.st_dev, st.st_uid, st.st_gid, st.st_size = 0o100644, 7, 8, 9, 10, 11
+        st.st_mtime, st.st_ctime = _cpython_float_time(c["mtime_ns"]), _cpython_float_time(c["ctime_ns"])
+        if c["with_ns"]:
+            st.st_mtime_ns, st.st_ctime_ns = c["mtime_ns"], c["ctime_ns"]
+    e = index_entry_from_stat(st, SHA_EMPTY.encode())
+    rec = {}
+    for fld, ns in (("mtime", c["mtime_ns"]), ("ctime", c["ctime_ns"])):
+        got = getattr(e, fld)
+        if c["with_ns"]:
+            exp = (ns // NS, ns % NS)
+            if got != exp:
+                ctx.oracle_fail(stream, c, f"index_entry_from_stat records {fld}={got!r} for st_{fld}_ns={ns} "
+                                f"(st_{fld}={getattr(st, 'st_' + fld)!r}): expected (sec, nsec) = {exp}", None)
+        else:
+            exp = getattr(st, "st_" + fld)
+            if got != exp:
+                ctx.oracle_fail(stream, c, f"index_entry_from_stat records {fld}={got!r} for the float st_{fld}={exp!r}", None)
+        rec[fld] = got
+    f = io.BytesIO()
+    try:
+        write_index_dict(f, {b"f": e})
+        f.seek(0)
+        back = read_index_dict(f)[b"f"]
+    except Exception as ex:
+        ctx.oracle_fail(stream, c, f"write/read of the entry built from the stat result raised {exc_kind(ex)}", None)
+        return rec, None
+    for fld, ns in (("mtime", c["mtime_ns"]), ("ctime", c["ctime_ns"])):
+        got = getattr(back, fld)
+        if c["with_ns"]:
+            exp = ((ns // NS) % U32, ns % NS)
+            if got != exp:
+                ctx.oracle_fail(stream, c, f"{fld} read back {got!r} for st_{fld}_ns={ns}: expected {exp}", None)
+        elif not time_matches(("float", getattr(st, "st_" + fld)), got):
+            ctx.oracle_fail(stream, c, f"{fld} read back {got!r} for the float {getattr(st, 'st_' + fld)!r}", None)
+    return rec, back
+
+
+def check_cache_time_case(ctx, stream: str, c: dict):
+    """Writer side: write_cache_time for the int, tuple and float spelling of one instant (c["ns"] total nanoseconds;
+    the float spelling only when it is exact: c["exact_float"]) stores (sec mod 2^32, nsec); -1.5 is (-2, 500000000)."""
+    from dulwich.index import write_cache_time
+    ns = c["ns"]
+    sec, nsec = ns // NS, ns % NS
+    exp = struct.pack(">LL", sec % U32, nsec)
+    spellings = [("tuple", (sec, nsec))]
+    if nsec == 0:
+        spellings.append(("int", sec))
+    if c.get("exact_float"):
+        fl = sec + nsec / NS
+        if (fl // 1.0, (fl % 1.0) * NS) == (float(sec), float(nsec)):      # the double holds the instant exactly
+            spellings.append(("float", fl))
+    out = {}
+    for nm, t in spellings:
+        f = io.BytesIO()
+        try:
+            write_cache_time(f, t)
+            out[nm] = f.getvalue()
+        except Exception as ex:
+            out[nm] = exc_kind(ex).encode()
+        if out[nm] != exp:
+            ctx.oracle_fail(stream, c, f"write_cache_time({t!r}) wrote {out[nm].hex() if len(out[nm]) == 8 else out[nm]!r}, "
+                            f"the instant is (sec, nsec) = ({sec}, {nsec}) -> {exp.hex()}", None)
+    return out
+
+
+def _stream_stat_boundary(ctx, git: Git, boost: int = 1):
+    """Timestamps next to a second boundary: hand-built stat results with and without *_ns, REAL files (os.utime(ns=)),
+    porcelain.add into .git/index, C git (`update-index --add` into a private index) on the same files, and the writer
+    side (int / tuple / float spellings incl. negative fractional floats).  Model: timespecOfNs / timeWords."""
+    import stat as _stat
+    from dulwich import porcelain
+    from dulwich.index import Index
+    from dulwich.repo import Repo
+    rng = ctx.rng
+    values = boundary_ns_values(rng, ctx.budget(150) * boost)
+    # (a) hand-built stat results, both branches of the conversion; model correspondence on the *_ns branch
+    outs = ctx.driver.batch([f"c11.timespec {v}" for v in values])
+    for v, o in zip(values, outs):
+        cns = rng.choice(values)
+        for with_ns in (True, False):
+            c = {"kind": "stat", "mtime_ns": v, "ctime_ns": cns, "with_ns": with_ns}
+            rec, back = check_stat_time_case(ctx, "stat.built", c)
+            fl = _cpython_float_time(v)
+            tag = ("ns" if with_ns else "float") + ":" + ("float-rounds-up" if int(fl // 1.0) != v // NS else "same-second") + \
+                  (":neg" if v < 0 else "")
+            ctx.count("stat.built", (v, cns, with_ns), True, tag)
+            if with_ns and back is not None:
+                real = f"{rec['mtime'][0]} {rec['mtime'][1]} {back.mtime[0]} {back.mtime[1]}" if isinstance(rec["mtime"], tuple) \
+                    else f"not-a-pair {rec['mtime']!r}"
+                if o != real:
+                    ctx.disagree("stat.built", c, o, real)
+    # (b) writer side
+    wvals = [s_ * NS + f_ for s_ in (0, 1, -1, -2, 5, -5, 2 ** 31, 2 ** 32 - 1, -(2 ** 31)) for f_ in (0, 500_000_000, 250_000_000, 750_000_000, 125_000_000)]
+    wvals += [v for v in values[:: max(1, len(values) // 60)]]
+    wouts = ctx.driver.batch([f"c11.timespec {v}" for v in wvals])
+    for v, o in zip(wvals, wouts):
+        c = {"kind": "cachetime", "ns": v, "exact_float": (v % NS) in (0, 500_000_000, 250_000_000, 750_000_000, 125_000_000) and abs(v // NS) < 2 ** 40}
+        out = check_cache_time_case(ctx, "stat.cachetime", c)
+        ctx.count("stat.cachetime", v, True, ",".join(sorted(out)) + (":neg" if v < 0 else ""))
+        m = o.split(" ")
+        if len(out.get("tuple", b"")) == 8 and struct.unpack(">LL", out["tuple"]) != (int(m[2]), int(m[3])):
+            ctx.disagree("stat.cachetime", c, o, out["tuple"].hex())
+    # (c) real files: os.utime(ns=) -> os.lstat -> index_entry_from_stat; porcelain.add; C git on the same files
+    repo_dir = ctx.scratch / f"statrepo{git.n}"
+    git.n += 1
+    git.run(["git", "init", "-q", str(repo_dir)], cwd=ctx.scratch)
+    pick = [s_ * NS + f_ for s_ in (1_790_000_000, 1_789_999_999, 0, 1, 2 ** 31 - 1, 2 ** 31, 2 ** 32 - 1, -5, -1)
+            for f_ in (0, 1, 500_000_000, 999_999_880, 999_999_900, 999_999_999)]
+    pick += rng.sample(values, min(len(values), 12 * boost))
+    files, skipped = [], 0
+    for i, v in enumerate(pick):
+        p = repo_dir / f"f{i}"
+        p.write_bytes(b"%d" % i)
+        try:
+            os.utime(p, ns=(v, v))
+        except (OSError, OverflowError):
+            skipped += 1
+            continue
+        st = os.lstat(p)
+        if st.st_mtime_ns != v:
+            skipped += 1          # the file system cannot hold this timestamp: nothing to compare
+            continue
+        files.append((p, v, st))
+    for p, v, st in files:
+        c = {"kind": "stat", "mtime_ns": st.st_mtime_ns, "ctime_ns": st.st_ctime_ns, "with_ns": True, "source": "real file"}
+        check_stat_time_case(ctx, "stat.realfile", c, st=st)
+        ctx.count("stat.realfile", v, True, "float-rounds-up" if int(st.st_mtime // 1.0) != v // NS else "same-second")
+    try:
+        repo = Repo(str(repo_dir))
+        try:
+            porcelain.add(repo, paths=[str(p) for p, _, _ in files])
+        finally:
+            repo.close()
+        idx = Index(str(repo_dir / ".git" / "index"))
+        d_entries = {k: e for k, e in idx.items()}
+    except Exception as ex:
+        ctx.oracle_fail("stat.porcelain", {"kind": "stat-porcelain", "values": [v for _, v, _ in files][:8]},
+                        f"porcelain.add of files with boundary timestamps raised {type(ex).__name__}: {ex}", None)
+        d_entries = {}
+    priv = ctx.scratch / "private.index"
+    if priv.exists():
+        priv.unlink()
+    env = dict(git.env, GIT_INDEX_FILE=str(priv))
+    git.run(["git", "update-index", "--add", "--"] + [p.name for p, _, _ in files], cwd=repo_dir, env=env)
+    rc, listed, err = git.ls(priv, repo_dir)
+    if rc != 0:
+        raise core.InfraError(f"git cannot list its private index: {err!r}")
+    g_entries = {t[0]: t for t in listed}
+    git_nsec = any(t[5][1] != 0 for t in listed)
+    ctx.extra_cov["git_records_nsec"] = git_nsec
+    if not git_nsec:
+        ctx.notes.append("this C git records 0 nanoseconds (built without USE_NSEC): stat.git compares whole seconds only")
+    for p, v, st in files:
+        k = p.name.encode()
+        c = {"kind": "stat-porcelain", "mtime_ns": v, "file": p.name}
+        exp = ((v // NS) % U32, v % NS)
+        de = d_entries.get(k)
+        if de is not None:
+            ctx.count("stat.porcelain", v, True, "neg" if v < 0 else "pos")
+            if de.mtime != exp:
+                ctx.oracle_fail("stat.porcelain", c, f"porcelain.add recorded mtime {de.mtime!r} in .git/index for a file with "
+                                f"st_mtime_ns={v} (st_mtime={st.st_mtime!r}): expected {exp}", None)
+            if tuple(de.ctime) != ((st.st_ctime_ns // NS) % U32, st.st_ctime_ns % NS):
+                ctx.oracle_fail("stat.porcelain", c, f"porcelain.add recorded ctime {de.ctime!r} for st_ctime_ns={st.st_ctime_ns}", None)
+        ge = g_entries.get(k)
+        if ge is not None and de is not None:
+            ctx.count("stat.git", v, True, "nsec" if git_nsec else "sec-only")
+            gm, gc = ge[5], ge[4]
+            same = (tuple(de.mtime) == gm and tuple(de.ctime) == gc) if git_nsec else (de.mtime[0] == gm[0] and de.ctime[0] == gc[0])
+            if not same:
+                ctx.oracle_fail("stat.git", c, f"dulwich records mtime {de.mtime!r} ctime {de.ctime!r}, C git records mtime {gm} "
+                                f"ctime {gc} for the same file (st_mtime_ns={v})", None)
+    ctx.extra_cov["stat_realfile_skipped_by_fs"] = skipped
+    shutil.rmtree(repo_dir, ignore_errors=True)
+
+
 def _run_corpus_witnesses(ctx, git: Git):
     """Witnesses of the known findings: replayed against the real code on every run."""
     cdir = core.VERIF / "corpus" / PROP
@@ -1847,6 +2055,7 @@ def run(ctx: core.Ctx):
     _run_corpus_witnesses(ctx, git)
     _stream_entries(ctx)
     _stream_fromstat(ctx)
+    _stream_stat_boundary(ctx, git)
     _stream_index(ctx, git)
     _stream_git_varint(ctx, git)
     _stream_git_written(ctx, git)
@@ -1860,6 +2069,10 @@ def search(ctx: core.Ctx):
     rng = ctx.rng
     git = Git(ctx)
     path = ctx.scratch / "search.index"
+    # 0. the second-boundary timestamp family (stat results, real files, porcelain.add, C git, writer side), boosted
+    _stream_stat_boundary(ctx, git, boost=6)
+    if ctx.oracle_failures:
+        return
     # 1. neighbourhood of disagreeing cases
     for d in ctx.disagreements[:50]:
         c = d["case"]
@@ -1949,6 +2162,12 @@ def replay(ctx: core.Ctx, data: dict) -> int:
         print("replay: git lists", len(listed), "entries rc", rc)
         if rc == 0:
             print("replay git-written:", check_gitwritten_case(ctx, git, "replay", c, raw, listed)[:200])
+    elif kind == "stat":
+        print("replay stat:", check_stat_time_case(ctx, "replay", {k: c[k] for k in ("kind", "mtime_ns", "ctime_ns", "with_ns")})[0])
+    elif kind == "cachetime":
+        print("replay cachetime:", check_cache_time_case(ctx, "replay", c))
+    elif kind == "stat-porcelain":
+        _stream_stat_boundary(ctx, git)
     elif kind == "varint":
         import dulwich.index as I
         enc = I._encode_varint(c["n"])
